@@ -666,6 +666,12 @@ impl ClusterActor {
             } {
                 for commit in commits {
                     for event in commit {
+                        // The stream index is per bucket: a stream living in another partition
+                        // of this bucket must not be gated by this partition's watermark
+                        if event.partition_id != partition_id {
+                            break 'iter;
+                        }
+
                         // Check if we've reached the count limit
                         if events_collected >= count {
                             has_more = true;
@@ -1065,7 +1071,10 @@ impl Message<GetStreamVersion> for ClusterActor {
                             .into_iter()
                             .flat_map(|commit| commit.into_iter())
                             .find_map(|event| {
-                                (event.partition_sequence < watermark)
+                                // the stream index is per bucket: only events of the requested
+                                // partition are gated by its watermark
+                                (event.partition_id == msg.partition_id
+                                    && event.partition_sequence < watermark)
                                     .then_some(event.stream_version)
                             })
                         {
